@@ -37,11 +37,14 @@ Proof. intros h v. unfold hget. apply nth_middle. Qed.
 (* ------------------------------------------------------------------ *)
 (* well-formed states *)
 
+Definition stale_alloc (n : nat) (o : obj) : Prop := Forall (fun r => snd r < n) (o_stale o).
+
 Definition wf (s : state) : Prop :=
-  NoDup (all_locs s) /\ Forall (fun l => l < length (st_heap s)) (all_locs s).
+  NoDup (all_locs s) /\ Forall (fun l => l < length (st_heap s)) (all_locs s)
+  /\ Forall (stale_alloc (length (st_heap s))) (st_objs s).
 
 Lemma wf_empty : wf empty_state.
-Proof. split; cbn; constructor. Qed.
+Proof. split; [|split]; cbn; constructor. Qed.
 
 Lemma all_locs_app : forall h objs o,
   all_locs (mkState h (objs ++ [o])) = all_locs (mkState h objs) ++ obj_locs o.
@@ -100,10 +103,17 @@ Lemma wf_disjoint : forall s j k oj ok l,
   In l (obj_locs oj) -> In l (obj_locs ok) -> False.
 Proof. intros s j k oj ok l [Hn _]. apply flat_map_disjoint. exact Hn. Qed.
 
+Lemma wf_stale : forall s k o r,
+  wf s -> nth_error (st_objs s) k = Some o -> In r (o_stale o) -> snd r < length (st_heap s).
+Proof.
+  intros s k o r (_ & _ & Hs) Hk Hr. rewrite Forall_forall in Hs.
+  specialize (Hs o (nth_error_In _ _ Hk)). unfold stale_alloc in Hs. rewrite Forall_forall in Hs. apply Hs. exact Hr.
+Qed.
+
 Lemma wf_alloc : forall s k o l,
   wf s -> nth_error (st_objs s) k = Some o -> In l (obj_locs o) -> l < length (st_heap s).
 Proof.
-  intros s k o l [_ Hf] Hk Hl. rewrite Forall_forall in Hf. apply Hf. eapply in_all_locs; eauto.
+  intros s k o l [_ [Hf _]] Hk Hl. rewrite Forall_forall in Hf. apply Hf. eapply in_all_locs; eauto.
 Qed.
 
 (* ------------------------------------------------------------------ *)
@@ -167,9 +177,15 @@ Qed.
 Definition fresh_obj (h h' : heap) (o : obj) : Prop :=
   NoDup (obj_locs o) /\ Forall (fun l => length h <= l < length h') (obj_locs o).
 
+(* the _meta references of a new object point to rows of an existing object or are
+   inherited from one *)
+Definition stale_from (objs : list obj) (o : obj) : Prop :=
+  forall r, In r (o_stale o) ->
+    exists k ob, nth_error objs k = Some ob /\ (In (snd r) (obj_locs ob) \/ In r (o_stale ob)).
+
 Definition objs_step (s s' : state) : Prop :=
   st_objs s' = st_objs s \/
-  exists o, st_objs s' = st_objs s ++ [o] /\ fresh_obj (st_heap s) (st_heap s') o.
+  exists o, st_objs s' = st_objs s ++ [o] /\ fresh_obj (st_heap s) (st_heap s') o /\ stale_from (st_objs s) o.
 
 (* locations an operation may write to *)
 Definition target_locs (s : state) (o : op) : list loc :=
@@ -221,33 +237,40 @@ Lemma cons_with_copy_step : forall s src req s' r,
   objs_step s s' /\ heap_only [] (st_heap s) (st_heap s').
 Proof.
   intros s src req s' r E. unfold cons_obj, cons_with in E.
-  destruct (nth_error (st_objs s) src) as [o|]; [|inversion E; subst; split; [left; reflexivity|apply heap_only_refl]].
+  destruct (nth_error (st_objs s) src) as [o|] eqn:Eo; [|inversion E; subst; split; [left; reflexivity|apply heap_only_refl]].
   destruct (cons_ok (st_heap s) o req); [|inversion E; subst; split; [left; reflexivity|apply heap_only_refl]].
   unfold halloc in E.
-  destruct (copy_rows (st_heap s ++ [hget (st_heap s) (o_hdr o)]) (o_rows o)) as [h2 rows'] eqn:Ec.
+  destruct (copy_rows (st_heap s ++ [hget (st_heap s) (o_hdr o)]) (eff_rows o)) as [h2 rows'] eqn:Ec.
   inversion E; subst s' r. clear E. cbn [st_objs st_heap].
   destruct (copy_rows_spec _ _ _ _ Ec) as (Hlen & Hold & _ & Hs & _).
   rewrite app_length in Hlen, Hold, Hs. cbn [length] in Hlen, Hold, Hs.
   split.
-  - right. eexists. split; [reflexivity|]. unfold fresh_obj, obj_locs. cbn [o_hdr o_rows st_heap st_objs]. rewrite Hs. split.
-    + constructor; [rewrite in_seq; lia|apply seq_NoDup].
-    + constructor; [lia|]. rewrite Forall_forall. intros l Hl. rewrite in_seq in Hl. lia.
+  - right. eexists. split; [reflexivity|]. split.
+    + unfold fresh_obj, obj_locs. cbn [o_hdr o_rows st_heap st_objs]. rewrite Hs. split.
+      * constructor; [rewrite in_seq; lia|apply seq_NoDup].
+      * constructor; [lia|]. rewrite Forall_forall. intros l Hl. rewrite in_seq in Hl. lia.
+    + unfold stale_from. cbn [o_stale]. intros r0 Hr0. exists src, o. split; [exact Eo|].
+      unfold stale_of in Hr0. destruct (o_kind o).
+      * destruct (o_strkeys o); [|destruct Hr0]. left. right. apply in_map. exact Hr0.
+      * right. exact Hr0.
   - split; [lia|]. intros l Hl _. rewrite Hold by lia. apply hget_app_old. exact Hl.
 Qed.
 
-Lemma new_dict_step : forall s hdr rows s' r,
-  new_dict s hdr rows = (s', r) ->
+Lemma new_dict_step : forall s hdr rows sk s' r,
+  new_dict s hdr rows sk = (s', r) ->
   objs_step s s' /\ heap_only [] (st_heap s) (st_heap s').
 Proof.
-  intros s hdr rows s' r E. unfold new_dict, halloc in E.
+  intros s hdr rows sk s' r E. unfold new_dict, halloc in E.
   destruct (alloc_rows (st_heap s ++ [hdr]) rows) as [h2 rows'] eqn:Ec.
   inversion E; subst s' r. clear E. cbn [st_objs st_heap].
   destruct (alloc_rows_spec _ _ _ _ Ec) as (Hlen & Hold & Hs & _).
   rewrite app_length in Hlen, Hold, Hs. cbn [length] in Hlen, Hold, Hs.
   split.
-  - right. eexists. split; [reflexivity|]. unfold fresh_obj, obj_locs. cbn [o_hdr o_rows st_heap st_objs]. rewrite Hs. split.
-    + constructor; [rewrite in_seq; lia|apply seq_NoDup].
-    + constructor; [lia|]. rewrite Forall_forall. intros l Hl. rewrite in_seq in Hl. lia.
+  - right. eexists. split; [reflexivity|]. split.
+    + unfold fresh_obj, obj_locs. cbn [o_hdr o_rows st_heap st_objs]. rewrite Hs. split.
+      * constructor; [rewrite in_seq; lia|apply seq_NoDup].
+      * constructor; [lia|]. rewrite Forall_forall. intros l Hl. rewrite in_seq in Hl. lia.
+    + intros r0 Hr0. destruct Hr0.
   - split; [lia|]. intros l Hl _. rewrite Hold by lia. apply hget_app_old. exact Hl.
 Qed.
 
@@ -257,7 +280,7 @@ Lemma exec_step : forall o s s' r,
   exec o s = (s', r) ->
   objs_step s s' /\ heap_only (target_locs s o) (st_heap s) (st_heap s').
 Proof.
-  intros o s s' r E. destruct o as [hdr rows|src req|tgt e src f ov an|tgt id col v|tgt id i v|tgt id v|tgt n];
+  intros o s s' r E. destruct o as [hdr rows sk|src req|tgt e src f ov an|tgt id col v|tgt id i v|tgt id v|tgt n];
     cbn [exec] in E; unfold target_locs; cbn [target].
   - eapply new_dict_step. exact E.
   - eapply cons_with_copy_step. exact E.
@@ -315,17 +338,24 @@ Qed.
 Lemma step_wf : forall s s',
   wf s -> objs_step s s' -> length (st_heap s) <= length (st_heap s') -> wf s'.
 Proof.
-  intros s s' [Hn Hf] Hs Hlen. destruct Hs as [Heq|[o [Heq [Hfn Hfr]]]].
-  - unfold wf, all_locs. rewrite Heq. split; [exact Hn|].
-    eapply Forall_impl; [|exact Hf]. cbn. intros; lia.
+  intros s s' Hw Hs Hlen. pose proof Hw as (Hn & Hf & Hst). destruct Hs as [Heq|[o [Heq [[Hfn Hfr] Hsf]]]].
+  - unfold wf, all_locs. rewrite Heq. split; [exact Hn|]. split.
+    + eapply Forall_impl; [|exact Hf]. cbn. intros; lia.
+    + eapply Forall_impl; [|exact Hst]. unfold stale_alloc. intros a Ha. eapply Forall_impl; [|exact Ha]. cbn. intros; lia.
   - destruct s' as [h' objs']. cbn [st_objs st_heap] in *. subst objs'. unfold wf.
-    rewrite all_locs_app. cbn [st_heap]. split.
+    rewrite all_locs_app. cbn [st_heap st_objs]. split; [|split].
     + apply NoDup_app_intro; [exact Hn|exact Hfn|].
       intros x Hx1 Hx2. rewrite Forall_forall in Hf, Hfr.
       specialize (Hf x Hx1). specialize (Hfr x Hx2). lia.
     + apply Forall_app. split.
       * eapply Forall_impl; [|exact Hf]. cbn. intros; lia.
       * eapply Forall_impl; [|exact Hfr]. cbn. intros; lia.
+    + apply Forall_app. split.
+      * eapply Forall_impl; [|exact Hst]. unfold stale_alloc. intros a Ha. eapply Forall_impl; [|exact Ha]. cbn. intros; lia.
+      * constructor; [|constructor]. unfold stale_alloc. rewrite Forall_forall. intros r0 Hr0.
+        destruct (Hsf r0 Hr0) as (k & ob & Hk & [Hin|Hin]).
+        -- eapply Nat.lt_le_trans; [exact (wf_alloc s k ob (snd r0) Hw Hk Hin)|exact Hlen].
+        -- eapply Nat.lt_le_trans; [exact (wf_stale s k ob r0 Hw Hk Hin)|exact Hlen].
 Qed.
 
 Theorem exec_wf : forall o s, wf s -> wf (fst (exec o s)).
@@ -402,36 +432,66 @@ Qed.
 (* ------------------------------------------------------------------ *)
 (* construction *)
 
+Lemma eff_rows_nostale : forall o, o_stale o = [] -> eff_rows o = o_rows o.
+Proof.
+  intros o H. unfold eff_rows. rewrite H. cbn [find_row]. rewrite <- (map_id (o_rows o)) at 2.
+  apply map_ext. intros [a b]. reflexivity.
+Qed.
+
+Lemma eff_view_nostale : forall h o, o_stale o = [] -> eff_view_obj h o = view_obj h o.
+Proof. intros h o H. unfold eff_view_obj, view_obj. rewrite (eff_rows_nostale o H). reflexivity. Qed.
+
+Lemma eff_rows_alloc : forall s k o r,
+  wf s -> nth_error (st_objs s) k = Some o -> In r (eff_rows o) -> snd r < length (st_heap s).
+Proof.
+  intros s k o r Hw Hk Hr. unfold eff_rows in Hr. apply in_map_iff in Hr. destruct Hr as [r0 [<- Hr0]]. cbn [snd].
+  destruct (find_row (o_stale o) (fst r0)) as [l'|] eqn:Ef.
+  - assert (Hin : exists id, In (id, l') (o_stale o)).
+    { clear -Ef. induction (o_stale o) as [|[k0 l0] t IH]; cbn [find_row] in Ef; [discriminate|].
+      destruct (Z.eqb k0 (fst r0)).
+      - inversion Ef; subst. exists k0. left. reflexivity.
+      - destruct (IH Ef) as [id Hid]. exists id. right. exact Hid. }
+    destruct Hin as [id Hin]. exact (wf_stale s k o (id, l') Hw Hk Hin).
+  - eapply wf_alloc; [exact Hw|exact Hk|]. right. apply in_map. exact Hr0.
+Qed.
+
 (* fresh_disjoint + copy: a successful construction appends an object that owns
-   locations no existing object owns, and that reads exactly like its source *)
-Theorem cons_fresh_copy : forall s src req s',
-  wf s -> cons_obj s src req = (s', false) ->
+   locations no existing object owns.  It reads like what the constructor reads from
+   its source: the source's header and rows - except that a row for which the source's
+   _meta holds a reference under the numeric-string key of its id is read through
+   that reference (eff_view_obj); without such references: exactly like the source *)
+Theorem cons_fresh_copy : forall s src req s' osrc,
+  wf s -> nth_error (st_objs s) src = Some osrc -> cons_obj s src req = (s', false) ->
   let n := length (st_objs s) in
   length (st_objs s') = S n
-  /\ view s' n = view s src
+  /\ view s' n = Some (eff_view_obj (st_heap s) osrc)
+  /\ (o_stale osrc = [] -> view s' n = view s src)
   /\ (exists o, nth_error (st_objs s') n = Some o /\ o_kind o = KWl /\
         forall j oj l, j < n -> nth_error (st_objs s') j = Some oj -> In l (obj_locs oj) -> ~ In l (obj_locs o)).
 Proof.
-  intros s src req s' Hw E n.
+  intros s src req s' osrc Hw Es E n.
   assert (Hw' : wf s') by (replace s' with (fst (cons_obj s src req)) by (rewrite E; reflexivity); apply (exec_wf (OCons src req)); exact Hw).
-  unfold cons_obj, cons_with in E.
-  destruct (nth_error (st_objs s) src) as [o|] eqn:Es; [|inversion E].
-  destruct (cons_ok (st_heap s) o req); [|inversion E].
+  unfold cons_obj, cons_with in E. rewrite Es in E.
+  destruct (cons_ok (st_heap s) osrc req); [|inversion E].
   unfold halloc in E.
-  destruct (copy_rows (st_heap s ++ [hget (st_heap s) (o_hdr o)]) (o_rows o)) as [h2 rows'] eqn:Ec.
-  inversion E; subst s'. clear E.
+  destruct (copy_rows (st_heap s ++ [hget (st_heap s) (o_hdr osrc)]) (eff_rows osrc)) as [h2 rows'] eqn:Ec.
+  injection E as E'. subst s'.
   destruct (copy_rows_spec _ _ _ _ Ec) as (Hlen & Hold & Hf & Hs & Hv).
   rewrite app_length in Hlen, Hold, Hs. cbn [length] in Hlen, Hold, Hs.
-  cbn [st_objs st_heap]. split; [rewrite app_length; cbn [length]; fold n; lia|]. split.
-  - unfold view. cbn [st_objs st_heap]. rewrite nth_error_app2 by (fold n; lia). fold n. rewrite Nat.sub_diag. cbn [nth_error option_map].
-    rewrite Es. cbn [option_map]. f_equal. unfold view_obj. cbn [o_hdr o_rows]. f_equal.
+  cbn [st_objs st_heap].
+  assert (Hview : view (mkState h2 (st_objs s ++ [mkObj KWl (length (st_heap s)) rows' false (stale_of osrc)])) n
+                  = Some (eff_view_obj (st_heap s) osrc)).
+  { unfold view. cbn [st_objs st_heap]. rewrite nth_error_app2 by (fold n; lia). fold n. rewrite Nat.sub_diag. cbn [nth_error option_map].
+    f_equal. unfold view_obj, eff_view_obj. cbn [o_hdr o_rows]. f_equal.
     + rewrite Hold by lia. apply hget_app_new.
     + rewrite Hv.
       * apply map_ext_in. intros r Hr. f_equal. apply hget_app_old.
-        eapply wf_alloc; [exact Hw|exact Es|]. right. apply in_map. exact Hr.
+        eapply eff_rows_alloc; [exact Hw|exact Es|exact Hr].
       * rewrite Forall_forall. intros r Hr. rewrite app_length. cbn [length].
-        assert (snd r < length (st_heap s)); [|lia].
-        eapply wf_alloc; [exact Hw|exact Es|]. right. apply in_map. exact Hr.
+        pose proof (eff_rows_alloc s src osrc r Hw Es Hr) as Hl.
+        eapply Nat.lt_le_trans; [exact Hl|]. lia. }
+  split; [rewrite app_length; cbn [length]; fold n; lia|]. split; [exact Hview|]. split.
+  - intros Hns. rewrite Hview. unfold view. rewrite Es. cbn [option_map]. f_equal. apply eff_view_nostale. exact Hns.
   - eexists. split; [rewrite nth_error_app2 by (fold n; lia); fold n; rewrite Nat.sub_diag; reflexivity|].
     split; [reflexivity|]. intros j oj l Hj Hnj Hl Hc.
     eapply (wf_disjoint _ j n oj _ l Hw'); [lia|exact Hnj| |exact Hl|exact Hc].
@@ -440,7 +500,7 @@ Qed.
 
 (* source_unchanged: build an object from src, then do anything that does not
    target src (to the new object, to third objects, further constructions):
-   src reads as before *)
+   src reads as before - also when the new object keeps _meta references to rows of src *)
 Theorem source_unchanged : forall s src req s' ops,
   wf s -> src < length (st_objs s) -> cons_obj s src req = (s', false) ->
   Forall (fun o => target o <> Some src) ops ->
@@ -456,28 +516,30 @@ Proof.
 Qed.
 
 (* new_unaffected_by_source: ... and anything that does not target the new object
-   (e.g. any changes of the source) leaves the new object reading like the source
-   did when it was copied *)
-Theorem new_unaffected_by_source : forall s src req s' ops,
-  wf s -> cons_obj s src req = (s', false) ->
+   (e.g. any changes of the source, or of the dictionary its _meta references point
+   to) leaves the new object reading as it did when it was built *)
+Theorem new_unaffected_by_source : forall s src req s' osrc ops,
+  wf s -> nth_error (st_objs s) src = Some osrc -> cons_obj s src req = (s', false) ->
   Forall (fun o => target o <> Some (length (st_objs s))) ops ->
-  view (run ops s') (length (st_objs s)) = view s src.
+  view (run ops s') (length (st_objs s)) = Some (eff_view_obj (st_heap s) osrc)
+  /\ (o_stale osrc = [] -> view (run ops s') (length (st_objs s)) = view s src).
 Proof.
-  intros s src req s' ops Hw E Hall.
-  destruct (cons_fresh_copy _ _ _ _ Hw E) as (Hlen & Hview & _).
+  intros s src req s' osrc ops Hw Es0 E Hall.
+  destruct (cons_fresh_copy _ _ _ _ _ Hw Es0 E) as (Hlen & Hview & Hview2 & _).
   assert (Es : s' = fst (exec (OCons src req) s)) by (cbn [exec]; rewrite E; reflexivity).
-  rewrite run_frame.
-  - exact Hview.
-  - rewrite Es. apply exec_wf. exact Hw.
-  - lia.
-  - exact Hall.
+  assert (Hf : view (run ops s') (length (st_objs s)) = view s' (length (st_objs s))).
+  { apply run_frame.
+    - rewrite Es. apply exec_wf. exact Hw.
+    - lia.
+    - exact Hall. }
+  split; [rewrite Hf; exact Hview|]. intros Hns. rewrite Hf. apply Hview2. exact Hns.
 Qed.
 
 (* the dictionary a caller builds reads as written *)
-Theorem new_dict_view : forall s hdr rows,
-  view (fst (new_dict s hdr rows)) (length (st_objs s)) = Some (hdr, rows).
+Theorem new_dict_view : forall s hdr rows sk,
+  view (fst (new_dict s hdr rows sk)) (length (st_objs s)) = Some (hdr, rows).
 Proof.
-  intros s hdr rows. unfold new_dict, halloc.
+  intros s hdr rows sk. unfold new_dict, halloc.
   destruct (alloc_rows (st_heap s ++ [hdr]) rows) as [h2 rows'] eqn:Ec. cbn [fst].
   destruct (alloc_rows_spec _ _ _ _ Ec) as (Hlen & Hold & Hs & Hv).
   rewrite app_length in Hold. cbn [length] in Hold.
@@ -485,3 +547,28 @@ Proof.
   f_equal. unfold view_obj. cbn [o_hdr o_rows]. f_equal; [|exact Hv].
   rewrite Hold by lia. apply hget_app_new.
 Qed.
+
+(* the unguarded copy statement is false of the model, as it is of the code: a
+   dictionary with numeric-string row keys (ids 7, 9), a wordlist built from it, an
+   assignment to row 9 of the wordlist, a wordlist built from the wordlist *)
+Definition sk_s0 : state := run [ONewDict [1; 2]%Z [(7, [10; 20]); (9, [11; 21])]%Z true; OCons 0 []] empty_state.
+Definition sk_s1 : state := run [OSet 1 9%Z 2%Z 55%Z] sk_s0.
+
+Lemma copy_fidelity_refuted :
+  exists s src req s',
+    wf s /\ cons_obj s src req = (s', false) /\ view s' (length (st_objs s)) <> view s src.
+Proof.
+  exists sk_s1, 1, [], (fst (cons_obj sk_s1 1 [])). split; [|split].
+  - unfold sk_s1, sk_s0. apply run_wf. apply reachable_wf.
+  - vm_compute. reflexivity.
+  - vm_compute. discriminate.
+Qed.
+
+(* ... while the caller's dictionary is still untouched by whatever is done to both wordlists *)
+Lemma sk_dictionary_safe :
+  view (run [OAdd 2 3%Z (SDict [(7, 1); (9, 2)]%Z) (fun a => match a with [x] => Some x | _ => None end) false false;
+             OSet 2 7%Z 1%Z 99%Z] (fst (cons_obj sk_s1 1 []))) 0
+  = Some ([1; 2]%Z, [(7, [10; 20]); (9, [11; 21])]%Z)
+  /\ view (fst (cons_obj sk_s1 1 [])) 2 = Some ([1; 2]%Z, [(7, [10; 20]); (9, [11; 21])]%Z)
+  /\ view sk_s1 1 = Some ([1; 2]%Z, [(7, [10; 20]); (9, [11; 55])]%Z).
+Proof. vm_compute. repeat split; reflexivity. Qed.
